@@ -109,7 +109,7 @@ PROPS['C11'] = dict(
     level='proof',
     technique='Verus postconditions that define every limb of the selected column from the inputs only, plus frame clauses over all other limb blocks, on the extracted real text',
     level_text='Unbounded proof for the coefficient-domain column operations: each ensures gives final(res).limb(col, j) for all j < size as a function of the read-only inputs (no old(res) on the right-hand side for out-of-place ops) and frame_ok: every block outside (col, 0..size) is unchanged.',
-    level_note='Covers the vec_znx_* reference operations, the transform-domain wrappers of vec_znx_dft.rs (fft64 and ntt120, numeric kernels abstract), the GLWE operation wrappers, and -- core layer, as a dependency-flow proof over assumed HAL flow contracts -- gglwe_product_dft, glwe_keyswitch_internal, glwe_keyswitch and glwe_decrypt: with nothing required of the previous contents of res or of the scratch arena, no limb of the result depends on stale bytes (the accumulator taken from scratch must be cleared before the digit-grouped product: for dsize >= 3 its last limbs are only ever added to); idft/svp/vmp/convolution kernels themselves and the other core operations are not covered by this check.',
+    level_note='Covers the vec_znx_* reference operations, the transform-domain wrappers of vec_znx_dft.rs (fft64 and ntt120, numeric kernels abstract), the GLWE operation wrappers, and -- core layer, as a dependency-flow proof over assumed HAL flow contracts -- gglwe_product_dft, glwe_keyswitch_internal, glwe_keyswitch and glwe_decrypt: with nothing required of the previous contents of res or of the scratch arena, no limb of the result depends on stale bytes (the accumulator taken from scratch must be cleared before the digit-grouped product: for dsize >= 3 its last limbs are only ever added to); idft/svp/vmp/convolution kernels themselves and the other core operations are not covered by this check.  Matrix level (core_matrix): the GGSW / GGLWE external products write EVERY cell of the destination -- the product on the rows both operands have, zero on the rows only the destination has -- as a function of the inputs only.',
     units=[V('core_matrix', lemmas=['lemma_same_layout']),
            K('poulpy-cpu-ref', 'verif_kani::c11_cnv', ['c11_cnv_apply_frame__n8_c2_r3'], cls='bounded', timeout=1500, bound='N = 8, destination 2 columns x 3 limbs with fully symbolic previous contents, operands 1 limb (all-zero prepared vectors), selected column symbolic', functions=['fft64 convolution_apply_dft: the selected column does not depend on the previous contents of the destination (tail limbs zero-filled) and the other column is untouched -- two-run comparison, structure-independent complement of the Verus unit cnv_apply_fft64']), K('poulpy-cpu-ref', 'verif_kani::c09_rings', ['c09_col_rotate__n4_p3', 'c09_col_add__n4'], cls='bounded', timeout=900, bound='N = 4, operand 1 limb (2), result 3 limbs, two columns, stale result', functions=['vec_znx_rotate, vec_znx_add_into: every limb of the selected column defined (zero past the operands), other column untouched -- index-level model']), K('poulpy-cpu-ref', 'verif_kani::c09_rings', ['c09_mul_xp_minus_one__n4_a1_r2_p1'], cls='bounded', timeout=900, bound='N = 4, operand 1 limb, result 2 limbs and 2 columns, all values symbolic (|a| < 2^62), stale result', functions=['vec_znx_mul_xp_minus_one (out of place): structure-independent complement of the Verus unit vec_znx_ring']), V('vec_znx_arith'), V('vec_znx_ring'), V('vec_znx_merge'), V('vec_znx_split'), V('vec_znx_big'), V('vec_znx_normalize'), V('vec_znx_dft'), V('vec_znx_dft_ntt120'), V('vmp_fft64'), V('vmp_ntt120'), V('cnv_prepare_fft64'), V('cnv_apply_fft64'), V('glwe_ops'), V('core_keyswitch'), V('core_extprod'), V('core_decrypt'),
            K('poulpy-cpu-ref', 'verif_kani::c11_ak', ['c11_ak_dft_apply__a3_r2_step2_off1', 'c11_ak_dft_apply__a2_r3_step1_off0', 'c11_ak_dft_apply__a3_r3_step2_off0', 'c11_ak_dft_apply__a2_r2_step1_off1'],
@@ -275,7 +275,7 @@ PROPS['C03'] = dict(
     level='proof',
     technique='Verus contracts on the real text of mod_exp_u64 / galois_element / galois_element_inv with number-theoretic lemmas (g*g^(M-1) == 1 mod 2^k); dependency-flow and radix-discipline contracts on the real text of the key-switching glue (gglwe_product_dft, glwe_keyswitch_internal, glwe_keyswitch, glwe_automorphism, glwe_automorphism_add) over assumed flow contracts of the transform-domain HAL operations',
     level_text='Unbounded proof: mod_exp_u64(x,e) == x^e mod 2^64 for all x,e; galois_element follows the sign convention and equals 5^|k| mod 2N; galois_element_inv(g)*g == 1 mod 2N for every odd g and every power-of-two order <= 2^33. Key-switching glue, for EVERY digit size, digit count, rank, limb count and input/key/output radix admitted by the API: no panic (every set_size within capacity, no underflow in the digit-group limb counts, every inner scratch assertion holds with exactly the advertised bytes), no stale scratch or result bytes reach the output (the accumulator must be cleared: for dsize >= 3 its last limbs are only added to), and every coefficient-domain vector folded into the key-switch accumulator is expressed in the key radix (the re-normalised copy, not the original operand, in the cross-radix branch).',
-    level_note='Ring packing: each pairwise merge (pack_internal of glwe_pack, combine of the on-the-fly packer) produces, for EVERY presence pattern of its two operands, the one documented formula a/2 + (b/2)X^t + phi(a/2 - (b/2)X^t) over abstract plaintext values (module axioms + the level identity phi(xX^t) = -X^t phi(x) as precondition; GLWE operation values trusted). The glue statements are about which inputs reach the output and in which radix, not about values: that the gadget product decrypts to the expected image within the noise bound needs exact DFT products (C07) and is undecided, as are trace / packing / LWE conversion semantics and the sub / sub_negate / assign variants of the automorphism (same structure, not yet extracted).',
+    level_note='Ring packing: each pairwise merge (pack_internal of glwe_pack, combine of the on-the-fly packer) produces, for EVERY presence pattern of its two operands, the one documented formula a/2 + (b/2)X^t + phi(a/2 - (b/2)X^t) over abstract plaintext values (module axioms + the level identity phi(xX^t) = -X^t phi(x) as precondition; GLWE operation values trusted). The glue statements are about which inputs reach the output and in which radix, not about values: that the gadget product decrypts to the expected image within the noise bound needs exact DFT products (C07) and is undecided, as are trace / packing / LWE conversion semantics and the sub / sub_negate / assign variants of the automorphism (same structure, not yet extracted).  Matrix level (core_matrix): GGLWE / GGSW key-switch, GGSW automorphism and the composition of automorphism keys apply the GLWE-level operation (abstract value function) to EVERY cell / every column of every cell of the result, for every row count the asserts admit.',
     units=[V('galois', lemmas=['lemma_odd_pow', 'lemma_galois_inverse']), V('core_keyswitch'), V('core_lwe_ksk'), V('core_trace'), V('core_lwe_to_glwe'), V('core_matrix', lemmas=['lemma_same_layout']),
            V('core_packing', lemmas=['lemma_merge_both', 'lemma_merge_lo', 'lemma_merge_hi', 'lemma_neg_add']), V('core_sample_extract'),
            K('poulpy-cpu-ref', 'verif_kani', ['c03_mask_mod_u64'], cls='complete', timeout=300, functions=['leaf fact x & (m-1) == x mod m (u64)'])],
@@ -283,7 +283,7 @@ PROPS['C03'] = dict(
                   'A-AUT: none needed after fix cfd9678 (glwe_automorphism_tmp_bytes now adds the big-accumulator automorphism / normalisation bytes)',
                   'vrad(v): limb radix of a coefficient-domain vector as an uninterpreted attribute; GLWE operands satisfy vrad(data) == base2k (precondition), glwe_normalize establishes it (restated contract)'],
     assumptions=[],
-    remainder='everything that multiplies polynomials (gadget product value), noise bounds, trace / LWE conversion semantics, that the tree of merges yields the packed slots (the single merge is under a value-level contract: core_packing), the remaining automorphism variants, GGLWE/GGSW key-switch wrappers',
+    remainder='everything that multiplies polynomials (gadget product value), noise bounds, trace / LWE conversion semantics, that the tree of merges yields the packed slots (the single merge is under a value-level contract: core_packing), the remaining GLWE automorphism variants',
 )
 
 BOUNDED_EXPL = 'bounded symbolic execution of the real code under the stated shape bounds (values fully symbolic); not a proof'
@@ -345,7 +345,7 @@ PROPS['C01'] = dict(
     level='proof',
     technique='Verus contracts: (i) on the integer statements sliced from the real NoiseInfos::target_limb_and_scale (where and at which scale the fresh error is injected); (ii) a dependency-flow contract on the real text of glwe_decrypt (poulpy-core/src/decryption/glwe.rs) over assumed flow contracts of the transform-domain HAL operations',
     level_text='Unbounded. (i) for every precision k in 1..=2^32 and every radix 1..=64 the error limb is ceil(k/base2k)-1 and the scale exponent is (limb+1)*base2k-k in [0, base2k): the error enters exactly at precision k. (ii) for every rank, limb count and ring degree, every limb of the decrypted plaintext depends on EXACTLY every active limb of every ciphertext column and every secret column: the phase is accumulated at the full ciphertext precision (no low limb is dropped before the final normalisation, which would cost more than the one unit of rounding the property allows), nothing of the scratch arena or of the previous plaintext contents reaches it, limbs beyond the plaintext size are untouched, no panic, and a scratch of exactly glwe_decrypt_tmp_bytes suffices.',
-    level_note='(ii) is a statement about which inputs reach the output, not about values: that the accumulated phase equals message + error needs exact DFT products (C07) and is undecided, as are the encryption side, the public-key 1-norm bound, the sampling distribution and the LWE / compressed variants. The f64 exp2 of the exponent is dropped by the slice in (i).',
+    level_note='(ii) is a statement about which inputs reach the output, not about values: that the accumulated phase equals message + error needs exact DFT products (C07) and is undecided, as are the encryption side, the public-key 1-norm bound, the sampling distribution and the compressed variants.  LWE (core_lwe_encrypt): encryption and decryption are under VALUE-level contracts over abstract HAL value functions -- the decrypted limbs are hal_normalize(pt radix, 0, ct radix, phase) with phase_i = b_i + <a_i, s>, for every pair of radices. The f64 exp2 of the exponent is dropped by the slice in (i).',
     units=[V('core_lwe_encrypt'), V('noise', lemmas=['c01_target_limb_and_exponent']), V('core_decrypt'),
            K('poulpy-cpu-ref', 'verif_kani::c01_tailcut', ['c01_tailcut_fill_dist__n2', 'c01_tailcut_add_dist__n2', 'c01_tailcut_fill_normal__n2', 'c01_tailcut_add_normal__n2'], cls='bounded', timeout=1200,
              bound='2 coefficients, at most 2 rejected draws in total, tail cut 3.2 (= sigma, the tightest admissible), draws nondeterministic finite f64 in [-1000, 1000] from a scripted source',
@@ -353,7 +353,7 @@ PROPS['C01'] = dict(
     trusted_base=VERUS_TRUST + CORE_TRUST + ['slice substitution ` as f64).exp2()` => `)`: scale == 2^e is not checked', 'usize::div_ceil assumed specification',
                   'R8 / subst in core_decrypt: `c0_big.data_mut().fill(0)` is read as zeroing every limb of the accumulator; the temporary `pt.to_mut()` is named'],
     assumptions=[],
-    remainder='phase = message + error (needs exact DFT products), encryption side, public-key encryption bound, decryption rounding value, LWE and compressed forms, four backends',
+    remainder='phase = message + error (needs exact DFT products), encryption side, public-key encryption bound, decryption rounding value, compressed forms, four backends',
 )
 
 PROPS['C06'] = dict(
@@ -366,7 +366,7 @@ PROPS['C06'] = dict(
            K('poulpy-cpu-ref', 'verif_kani', ['c06_vec_znx_fill_uniform_ref__n2_size2'], cls='complete', timeout=900, functions=['znx_fill_uniform_ref', 'vec_znx_fill_uniform_ref'])],
     trusted_base=VERUS_TRUST + ['Source reduced to (seed, words drawn) in the Verus unit'],
     assumptions=['stream abstraction: every u64 drawn from ChaCha8 is an independent symbolic value'],
-    remainder='empirical sigma, uniformity of the generator, determinism in (plaintext, secret, seeds) and seed separation of every key-material routine',
+    remainder='empirical sigma, uniformity of the generator, determinism in (plaintext, secret, seeds) and seed separation of the key-material routines other than the GGLWE-level encryptions (core_encrypt) and the circuit-bootstrapping bundle's stream order (cbt_key_encrypt)',
 )
 
 AVX_STUBS = 'lane-wise models (Intel SDM) of _mm256_srlv_epi64, _mm256_sllv_epi64, _mm256_add_epi64, _mm256_sub_epi64, _mm256_sll_epi64, _mm256_srl_epi64, _mm256_i64gather_epi64 (Kani cannot interpret these intrinsics)'
